@@ -158,9 +158,20 @@ def grep_forbidden():
     return hits
 
 
-def property_theorems(pid):
-    """Names of the theorems stated in lean/BertE/Props/<pid>.lean (fully qualified)."""
-    path = os.path.join(LEAN_DIR, 'BertE', 'Props', pid + '.lean')
+def property_theorems(pid, extra_modules=()):
+    """Names of the theorems stated in lean/BertE/Props/<pid>.lean (fully qualified), and in the other
+    `BertE.Props.*` modules among the check's LEAN_TARGETS (`extra_modules`)."""
+    names = _theorems_of(os.path.join(LEAN_DIR, 'BertE', 'Props', pid + '.lean'))
+    for mod in extra_modules:
+        parts = mod.split('.')
+        if len(parts) == 3 and parts[:2] == ['BertE', 'Props'] and parts[2] != pid:
+            for n in _theorems_of(os.path.join(LEAN_DIR, 'BertE', 'Props', parts[2] + '.lean')):
+                if n not in names:
+                    names.append(n)
+    return names
+
+
+def _theorems_of(path):
     with open(path) as fh:
         src = strip_comments(fh.read())
     ns = []
@@ -180,14 +191,18 @@ def property_theorems(pid):
     return names
 
 
-def axiom_audit(pid, timeout=1200):
-    """`#print axioms` on every theorem of Props/<pid>. Returns (ok, {thm: [axioms]}, raw)."""
-    thms = property_theorems(pid)
+def axiom_audit(pid, timeout=1200, extra_modules=()):
+    """`#print axioms` on every theorem of Props/<pid> (and of the extra Props modules of the check).
+    Returns (ok, {thm: [axioms]}, raw)."""
+    thms = property_theorems(pid, extra_modules)
     adir = os.path.join(LEAN_DIR, '.lake', 'audit')
     os.makedirs(adir, exist_ok=True)
     f = os.path.join(adir, pid + '.lean')
     with open(f, 'w') as fh:
         fh.write('import BertE.Props.%s\n' % pid)
+        for mod in extra_modules:
+            if mod != 'BertE.Props.%s' % pid:
+                fh.write('import %s\n' % mod)
         for t in thms:
             fh.write('#print axioms %s\n' % t)
     with Lock():
